@@ -8,7 +8,11 @@ from umnlib import tp
 
 GOOD = ["b.txt", "d.txt", "f", "h.txt"]          # "f" is a sub-directory
 LETTERS = ["a", "c", "e", "g", "i"]              # sort before / between / after the good names
-KINDS = ["dangling", "fifo", "socket", "dotdot", "dotbs", "bsbs", "enoent", "eacces"]
+KINDS = ["dangling", "fifo", "socket", "dotdot", "dotbs", "bsbs", "enoent", "eacces", "vanish"]
+# a fault kind may carry a name suffix ("dangling:.html"): the handler chain looks at names too, and a
+# handler that keys on the name must cope with an entry it cannot stat or open just the same
+SUFFIXES = [".html", ".gophermap", ".mbox", ".zip", ".pyg", ".tal", ".txt.gz"]
+SUFFIX_KINDS = ["dangling", "enoent", "vanish"]
 DOT_KINDS = ["dot-dangling", "dot-fifo", "dot-socket",
              # dot-prefixed names that also fail the selector filter (editor swap files, the `..data` entries of
              # mounted config volumes, a file literally called `...`), as regular file, dangling link and directory
@@ -17,16 +21,21 @@ CONFIG = {"handlers.dir.DirHandler": {"cachetime": "0"}}
 
 
 def fault_entry(pre, letter, kind):
-    """-> (name, tree entries, stat fault or None)"""
+    """-> (name, tree entries, stat fault or None | "vanish")"""
+    kind, suf = (kind.split(":", 1) + [""])[:2]
     if kind == "dangling":
-        n = letter + "link"
+        n = letter + "link" + suf
         return n, [{"path": tp(pre + n), "kind": "symlink", "target": "nowhere-at-all"}], None
     if kind == "fifo":
-        n = letter + "fifo"
+        n = letter + "fifo" + suf
         return n, [{"path": tp(pre + n), "kind": "fifo"}], None
     if kind == "socket":
-        n = letter + "sock"
+        n = letter + "sock" + suf
         return n, [{"path": tp(pre + n), "kind": "socket"}], None
+    if kind == "vanish":
+        # deleted between the enumeration of the directory and the inspection of the entry
+        n = letter + "vanish" + (suf or ".txt")
+        return n, [{"path": tp(pre + n), "data": "soon gone\n"}], "vanish"
     if kind == "dotdot":
         n = letter + "..y"
         return n, [{"path": tp(pre + n), "data": "dots\n"}], None
@@ -37,7 +46,7 @@ def fault_entry(pre, letter, kind):
         n = letter + "\\\\y"
         return n, [{"path": tp(pre + n), "data": "two backslashes\n"}], None
     if kind in ("enoent", "eacces"):
-        n = letter + "gone.txt"
+        n = letter + "gone" + (suf or ".txt")
         return n, [{"path": tp(pre + n), "data": "was here\n"}], {"enoent": "ENOENT", "eacces": "EACCES"}[kind]
     if kind == "dot-dangling":
         n = "." + letter + "link"
@@ -79,13 +88,16 @@ def scenario(dirsel, faults):
             tree.append({"path": pre + g, "data": "good %s\n" % g})
     statf = {}
     names = []
+    vanish = []
     for pos, kind in faults:
         n, ents, sf = fault_entry(pre, LETTERS[pos], kind)
         tree += ents
         names.append(n)
-        if sf:
+        if sf == "vanish":
+            vanish.append(n)
+        elif sf:
             statf[n] = sf
-    return {"tree": tree, "dir": dirsel, "stat_faults": statf, "faulty": names, "faults": faults}
+    return {"tree": tree, "dir": dirsel, "stat_faults": statf, "vanish": vanish, "faulty": names, "faults": faults}
 
 
 def success_with_all(proto, out, base):
@@ -124,6 +136,10 @@ def run(tier):
         for pos in ((0, 3) if kind.startswith("dot-dotdot") else (0,)):
             scenarios.append(scenario(["/d", "/"][k % 2], [(pos, kind)]))
             k += 1
+    for i, suf in enumerate(SUFFIXES):
+        for j, kind in enumerate(SUFFIX_KINDS):
+            scenarios.append(scenario(["/d", "/"][k % 2], [((i + j) % len(LETTERS), kind + ":" + suf)]))
+            k += 1
     pairs = []
     for p1 in range(len(LETTERS)):
         for p2 in range(p1 + 1, len(LETTERS)):
@@ -149,7 +165,8 @@ def run(tier):
             data, tls = gen.request_bytes(proto, sc["dir"])
             reqs.append({"data": gen.lat(data), "tls": tls, "proto": proto})
         jobs.append({"op": "c12_faults", "tree": sc["tree"], "dir": sc["dir"], "stat_faults": sc["stat_faults"],
-                     "kinds": ["umn", "dir"], "perms": ["natural", "reversed"], "config": CONFIG, "requests": reqs})
+                     "vanish": sc["vanish"], "kinds": ["umn", "dir"], "perms": ["natural", "reversed"], "config": CONFIG,
+                     "requests": reqs, "repeat_requests": [q for q in reqs if q["proto"] in ("gopher", "http")]})
     res = impl_run_parallel(jobs, chunks=12)
     umnlib.check_ok(res)
 
@@ -201,8 +218,31 @@ def run(tier):
                                   {"what": "one unservable entry takes down the listing of its directory: " + why,
                                    "handler": kind, "protocol": rq["proto"], "request_latin1": rq["data"], "tls": rq["tls"],
                                    "faults": sc["faults"], "faulty_names": sc["faulty"], "stat_faults": sc["stat_faults"],
+                                   "deleted_after_enumeration": sc["vanish"],
                                    "dir": sc["dir"], "tree": sc["tree"], "response_latin1": o["out"][:300],
                                    "exception": o["exc"], "log": o["log"]}, tag_)
+            # the same request twice within the lifetime of the directory cache
+            reps = r["res"].get("repeats", {}).get(kind, [])
+            for rq, pair_ in zip([q for q in job["requests"] if q["proto"] in ("gopher", "http")], reps):
+                for which, o in zip(("first", "repeated"), pair_):
+                    nreq += 1
+                    out = o["out"].encode("latin-1")
+                    ok, why = success_with_all(rq["proto"], out, base)
+                    if o["exc"]:
+                        ok, why = False, "exception " + o["exc"]
+                    chk.count((json.dumps(sc["faults"]), sc["dir"], kind, rq["proto"], "cache", which), nontrivial=bool(sc["faults"]))
+                    if not ok:
+                        fails += 1
+                        found = True
+                        tag_ = "c12-dotfile-aborts-listing" if only_dot else "c12-child-aborts-listing"
+                        report((tag_, kind, rq["proto"], "cache-" + which),
+                               {"what": "one unservable entry takes down the listing of its directory (%s request with the "
+                                        "directory cache enabled): %s" % (which, why),
+                                "handler": kind, "protocol": rq["proto"], "request_latin1": rq["data"], "tls": rq["tls"],
+                                "faults": sc["faults"], "faulty_names": sc["faulty"], "stat_faults": sc["stat_faults"],
+                                "deleted_after_enumeration": sc["vanish"], "cachetime": 180,
+                                "dir": sc["dir"], "tree": sc["tree"], "response_latin1": o["out"][:300],
+                                "exception": o["exc"], "log": o["log"]}, tag_)
     mism, err, nsh = coq_eval("C12", "k_faults", "Lib.Str Lib.Regex Model.DirEntry Model.UMN Model.Dir Corr.K07",
                               "chk_listing the_fx", cases, shard=12, pre=pre, timeout=900)
     cov["correspondence"] = {"fault_scenarios": len(scenarios), "worlds_compared": len(cases), "shards": nsh,
